@@ -24,7 +24,8 @@ def run_one(item):
         hits = {}
         for m in re.finditer(r'^FINDING rule=(C\d+)\.(R\d+) status=(\w+) construct="([^"]*)"', out, re.M):
             hits.setdefault(m.group(1), []).append(m.group(1) + "." + m.group(2) + " " + m.group(4))
-        return dict(name=name, kind=kind, property=prop, status="ran", reported_by=sorted(hits), findings={k: sorted(set(v))[:4] for k, v in hits.items()})
+        rules = sorted({f.split()[0] for v in hits.values() for f in v})
+        return dict(name=name, kind=kind, property=prop, status="ran", reported_by=sorted(hits), rules=rules, findings={k: sorted(set(v))[:4] for k, v in hits.items()})
     finally:
         shutil.rmtree(w, ignore_errors=True)
 args = sys.argv[1:]
